@@ -25,6 +25,11 @@ pub struct C03;
 pub enum Case {
     Production { input: Vec<u8>, parts: Vec<Vec<u16>> },
     Core { patterns: Vec<Re>, via_decode: bool, input: Vec<u8>, parts: Vec<Vec<u16>> },
+    /// (c) the tty read loop: `pad` printable bytes, then `input`, typed into a pseudo-terminal
+    /// in the chunks given by `cuts`; `lockstep` = the next chunk is typed only after the
+    /// terminal object has read everything typed so far, otherwise a thread types the chunks
+    /// `pause_us` apart while the terminal object is polling
+    Tty { pad: u16, input: Vec<u8>, cuts: Vec<u16>, lockstep: bool, pause_us: u16 },
 }
 
 const ALPHA: &[u8] = b"abc\x1b";
@@ -440,6 +445,146 @@ fn sample_match(re: &Re, choices: &[u8], alphabet: &[u8]) -> Vec<u8> {
     out
 }
 
+
+// ---------------------------------------------------------------------------------------
+// (c) the read loop of the terminal object (src/unix.rs) on a pseudo-terminal
+
+fn tty_inconclusive(msg: impl Into<String>) -> Fail {
+    Fail::new("inconclusive/pty-session", msg.into())
+}
+
+/// Events delivered by `Terminal::poll` for bytes typed into the pty in generated chunks must
+/// be the events a fresh decoder yields for the same bytes in a single buffer: nothing lost,
+/// duplicated or reordered by the 1024-byte read buffer, by reads that end inside a sequence,
+/// or by the event queue.
+fn check_tty(pad: u16, input: &[u8], cuts: &[u16], lockstep: bool, pause_us: u16) -> Outcome {
+    use crate::pty::{Peer, Pty};
+    use std::time::{Duration, Instant};
+    use surf_n_term::{SystemTerminal, Terminal};
+    let mut bytes: Vec<u8> = (0..pad as usize).map(|i| b'a' + (i % 26) as u8).collect();
+    bytes.extend_from_slice(input);
+    // expected: the public decoder over one buffer
+    let expected = drive_public(surf_n_term::decoder::TTYEventDecoder::new(), &[&bytes[..]], "tty")?
+        .unwrap_or_default();
+    let mut pos: Vec<usize> = cuts.iter().map(|c| (*c as usize * (bytes.len() + 1)) >> 16).collect();
+    pos.push(bytes.len());
+    pos.sort();
+    let mut chunks: Vec<Vec<u8>> = Vec::new();
+    let mut last = 0usize;
+    for p in pos {
+        if p > last {
+            chunks.push(bytes[last..p].to_vec());
+            last = p;
+        }
+    }
+    let pty = Pty::open().map_err(|e| tty_inconclusive(format!("cannot open pty: {e}")))?;
+    let peer = Peer::spawn(&pty);
+    let mut term = SystemTerminal::open(&pty.slave_path)
+        .map_err(|e| Fail::new("tty/open-error", format!("SystemTerminal::open failed: {e:?}")))?;
+    while let Ok(Some(_)) = term.poll(Some(Duration::ZERO)) {}
+    let recv0 = term.stats().recv;
+    let master_fd = {
+        use std::os::fd::AsRawFd;
+        pty.master.as_raw_fd()
+    };
+    let type_chunk = move |c: &[u8]| {
+        let mut off = 0usize;
+        while off < c.len() {
+            let n = unsafe { libc::write(master_fd, c[off..].as_ptr() as *const libc::c_void, c.len() - off) };
+            if n <= 0 {
+                break;
+            }
+            off += n as usize;
+        }
+    };
+    let mut observed: Vec<String> = Vec::new();
+    let started = Instant::now();
+    let mut reads_inside = false;
+    let total = bytes.len();
+    let typer = if lockstep {
+        None
+    } else {
+        let chunks = chunks.clone();
+        Some(std::thread::spawn(move || {
+            for c in &chunks {
+                type_chunk(c);
+                if pause_us > 0 {
+                    std::thread::sleep(Duration::from_micros(pause_us as u64));
+                }
+            }
+        }))
+    };
+    let mut next = 0usize;
+    let mut typed = 0usize;
+    loop {
+        let got = term.stats().recv - recv0;
+        if lockstep && got == typed && next < chunks.len() {
+            type_chunk(&chunks[next]);
+            typed += chunks[next].len();
+            next += 1;
+        }
+        if got > 0 && got < total {
+            reads_inside = true;
+        }
+        if got >= total {
+            break;
+        }
+        if started.elapsed() > Duration::from_secs(8) {
+            return Err(tty_inconclusive(format!("only {got} of {total} typed bytes were read within 8 s")));
+        }
+        match term.poll(Some(Duration::from_millis(10))) {
+            Ok(Some(ev)) => observed.push(format!("{ev:?}")),
+            Ok(None) => {}
+            Err(e) => return Err(Fail::new("tty/poll-error", format!("poll failed: {e:?}"))),
+        }
+    }
+    if let Some(t) = typer {
+        let _ = t.join();
+    }
+    // everything was read: what is queued comes out of zero-timeout polls
+    let mut steps = 0usize;
+    loop {
+        steps += 1;
+        ensure!(steps < 200_000, "tty/poll-does-not-drain", "zero-timeout polls keep returning events");
+        match term.poll(Some(Duration::ZERO)) {
+            Ok(Some(ev)) => observed.push(format!("{ev:?}")),
+            Ok(None) => break,
+            Err(e) => return Err(Fail::new("tty/poll-error", format!("poll failed: {e:?}"))),
+        }
+    }
+    let got = term.stats().recv - recv0;
+    ensure!(got == total, "tty/recv-counter", "typed {total} bytes, stats().recv grew by {got}");
+    drop(term);
+    drop(peer);
+    let keep = |e: &&String| !e.starts_with("Resize(") && !e.starts_with("KittyImage");
+    let obs: Vec<&String> = observed.iter().filter(keep).collect();
+    let exp: Vec<&String> = expected.iter().filter(keep).collect();
+    if obs != exp {
+        let i = (0..obs.len().min(exp.len())).find(|&i| obs[i] != exp[i]).unwrap_or(obs.len().min(exp.len()));
+        return Err(Fail::new(
+            "tty/events-differ-from-single-buffer-decode",
+            format!(
+                "{} bytes typed in {} chunks ({}): event #{i} is {:?} through the terminal object but {:?} from the decoder on one buffer ({} vs {} events); input tail {:?}",
+                total,
+                chunks.len(),
+                if lockstep { "lockstep" } else { "free running" },
+                obs.get(i),
+                exp.get(i),
+                obs.len(),
+                exp.len(),
+                esc(&bytes[pad as usize..])
+            ),
+        ));
+    }
+    let crosses = total > 1024;
+    Ok(Pass::new(reads_inside && exp.len() > pad as usize)
+        .label("tty")
+        .label_if(lockstep, "tty-lockstep")
+        .label_if(!lockstep, "tty-free-running")
+        .label_if(crosses, "tty-more-than-one-read-buffer")
+        .label_if(reads_inside, "tty-several-reads"))
+}
+
 impl Property for C03 {
     type Case = Case;
 
@@ -479,7 +624,11 @@ impl Property for C03 {
                 input.truncate(24);
                 Case::Core { patterns, via_decode, input, parts }
             });
-        prop_oneof![3 => production, 2 => core].boxed()
+        // pad so that the interesting bytes straddle the 1024-byte read buffer of the loop
+        let pad = prop_oneof![3 => Just(0u16), 2 => 0u16..40, 3 => 990u16..1024, 1 => 2010u16..2048];
+        let tty = (pad, hostile::input(max_raw.min(120)), proptest::collection::vec(any::<u16>(), 0..8), any::<bool>(), prop_oneof![Just(0u16), 0u16..400])
+            .prop_map(|(pad, input, cuts, lockstep, pause_us)| Case::Tty { pad, input, cuts, lockstep, pause_us });
+        prop_oneof![60 => production, 40 => core, 3 => tty].boxed()
     }
 
     fn check(&self, case: &Case) -> Outcome {
@@ -496,6 +645,7 @@ impl Property for C03 {
                     .label_if(es.tokens > es.recognised, "event-raw")
                     .label_if(input.len() <= 48, "all-single-cuts"))
             }
+            Case::Tty { pad, input, cuts, lockstep, pause_us } => check_tty(*pad, input, cuts, *lockstep, *pause_us),
             Case::Core { patterns, via_decode, input, parts } => {
                 let f = CoreFeeder { patterns, via_decode: *via_decode, alphabet: ALPHA.to_vec() };
                 let (st, cut) = check_feeder(&f, input, parts)?;
@@ -514,7 +664,7 @@ impl Property for C03 {
     }
 
     fn rule(&self) -> String {
-        "(a) 60%: hostile::input byte strings (raw, hostile skeletons, mutated/well-formed printer output; <=48 raw bytes quick, <=400 thorough) through the production event AND command decoders: single buffer vs byte-at-a-time vs 3 generated partitions (0-5 cuts, empty reads allowed) vs every single cut position when the input has <=48 bytes; spans and items must be identical, then the single-buffer tokenisation is validated against leftmost-longest using the production DFA's per-prefix acceptance trace. (b) 40%: 1-6 patterns from regular-expression ASTs (depth<=3, no empty-language leaves) over {a,b,c,ESC} built through the public NFA API and run through the private tokeniser (hook, both tag paths) on inputs <=24 bytes assembled from random letters and random walks through the patterns, same partitions, validated against the derivative matcher. non-trivial = some token was taken from a non-terminal candidate (a longer match was attempted and failed, bytes rescheduled) and some cut falls strictly inside an item".into()
+        "(a) 60%: hostile::input byte strings (raw, hostile skeletons, mutated/well-formed printer output; <=48 raw bytes quick, <=400 thorough) through the production event AND command decoders: single buffer vs byte-at-a-time vs 3 generated partitions (0-5 cuts, empty reads allowed) vs every single cut position when the input has <=48 bytes; spans and items must be identical, then the single-buffer tokenisation is validated against leftmost-longest using the production DFA's per-prefix acceptance trace. (b) 40%: 1-6 patterns from regular-expression ASTs (depth<=3, no empty-language leaves) over {a,b,c,ESC} built through the public NFA API and run through the private tokeniser (hook, both tag paths) on inputs <=24 bytes assembled from random letters and random walks through the patterns, same partitions, validated against the derivative matcher. (c) ~3%: the read loop of the terminal object: 0-2047 printable pad bytes (so that the rest straddles the loop's 1024-byte read buffer) + a hostile::input string typed into a pseudo-terminal in 1-9 chunks, in lockstep with the reader or free running with 0-400 us pauses; the events returned by Terminal::poll must equal the events of a fresh TTYEventDecoder over the same bytes in one buffer, and stats().recv must equal the bytes typed (non-trivial there = more than one read and at least one event beyond the pad). non-trivial (a, b) = some token was taken from a non-terminal candidate (a longer match was attempted and failed, bytes rescheduled) and some cut falls strictly inside an item".into()
     }
 
     fn assumptions(&self) -> Vec<String> {
@@ -523,6 +673,7 @@ impl Property for C03 {
             "a sequence recognised by the automaton whose payload decoder rejects it may surface as one raw item covering exactly the longest match (production decoders only)".into(),
             "for (a) the set of recognised sequences is the production automaton itself (its language is C04/C15's subject)".into(),
             "at the end of input a viable, extendable prefix stays pending and produces no token".into(),
+            "(c) Resize events (the library's reaction to a size report) and kitty image responses (consumed by an image handler) are left out of the comparison; a session whose typed bytes are not read within 8 s is inconclusive".into(),
         ]
     }
 }
